@@ -52,6 +52,10 @@ type Req struct {
 	BodyLen   int    `json:"body_len,omitempty"`
 	RespSize  int    `json:"resp_size"`
 	NoDrain   bool   `json:"no_drain,omitempty"` // close the response body after the first byte
+	// TimeoutMs > 0: the caller's context carries that deadline (and is
+	// cancelled when the call returns); net/http lets a dial that is under way
+	// run on for the benefit of later requests.
+	TimeoutMs int `json:"timeout_ms,omitempty"`
 }
 
 func (r Req) hostPort() string {
